@@ -51,9 +51,68 @@ def yaml_with_anchors(doc):
     return s.getvalue()
 
 
+def as_other_mappings(obj, memo=None):
+    """the same object graph (sharing kept) held in OrderedDict mappings instead of plain dicts"""
+    import collections
+    memo = {} if memo is None else memo
+    if id(obj) in memo:
+        return memo[id(obj)]
+    if isinstance(obj, dict):
+        out = memo[id(obj)] = collections.OrderedDict()
+        for k, v in obj.items():
+            out[k] = as_other_mappings(v, memo)
+        return out
+    if isinstance(obj, list):
+        out = memo[id(obj)] = []
+        out.extend(as_other_mappings(v, memo) for v in obj)
+        return out
+    return obj
+
+
+def defaults_corpus():
+    """fixed documents about default precedence with hand-written expectations (facts about the resolved dictionary):
+    demes WITHOUT an `epochs` list that take everything from their own / the top-level epoch defaults, in one document"""
+    docs = []
+    d = {"time_units": "generations", "defaults": {"epoch": {"start_size": 100}},
+         "demes": [{"name": "A"}, {"name": "B", "defaults": {"epoch": {"start_size": 200}}},
+                   {"name": "C", "defaults": {"epoch": {"start_size": 300, "selfing_rate": 0.5}}}, {"name": "D"},
+                   {"name": "E", "ancestors": ["A"], "start_time": 10, "defaults": {"epoch": {"end_size": 50}}}]}
+    facts = [("A", 100, 100, 0), ("B", 200, 200, 0), ("C", 300, 300, 0.5), ("D", 100, 100, 0), ("E", 100, 50, 0)]
+    docs.append((d, facts))
+    d2 = {"time_units": "generations", "defaults": {"epoch": {"start_size": 7, "cloning_rate": 0.25}},
+          "demes": [{"name": "X", "defaults": {"epoch": {"cloning_rate": 0}}}, {"name": "Y"}, {"name": "Z", "epochs": [{"start_size": 9}]}, {"name": "W"}]}
+    docs.append((d2, [("X", 7, 7, 0), ("Y", 7, 7, 0), ("Z", 9, 9, 0), ("W", 7, 7, 0)]))
+    return docs
+
+
+def check_defaults_corpus(ctx):
+    for d, facts in defaults_corpus():
+        ctx.count(show(canon_doc(d)), True, tags=["defaults_corpus"])
+        for route, c in route_results(d, ("dict", "builder_fromdict", "yaml", "json")).items():
+            if c[0] != "ok":
+                ctx.violation(f"a valid model is rejected through route {route} ({c[1]})", {"document": d, "route": route}, python=py_repro(d, "g.asdict()"))
+                continue
+            got = {x["name"]: x for x in c[2].asdict()["demes"]}
+            for name, ss, es, selfing in facts:
+                e = got[name]["epochs"][0]
+                if (e["start_size"], e["end_size"], e["selfing_rate"]) != (ss, es, selfing) or len(got[name]["epochs"]) != 1:
+                    ctx.violation(f"resolved dictionary differs from the specification's resolution (route {route})", {"document": d, "route": route},
+                                  detail={"deme": name, "got": [e["start_size"], e["end_size"], e["selfing_rate"]], "expected": [ss, es, selfing]},
+                                  python=py_repro(d, "g.asdict()"))
+                    break
+        cl = [x for x in got.values()] if c[0] == "ok" else []
+        if d.get("defaults", {}).get("epoch", {}).get("cloning_rate") is not None and c[0] == "ok":
+            want = {"X": 0, "Y": 0.25, "Z": 0.25, "W": 0.25}
+            for x in cl:
+                if x["epochs"][0]["cloning_rate"] != want[x["name"]]:
+                    ctx.violation("resolved dictionary differs from the specification's resolution (route json)", {"document": d},
+                                  detail={"deme": x["name"], "cloning_rate": x["epochs"][0]["cloning_rate"], "expected": want[x["name"]]})
+
+
 def run(ctx):
     n = 250 if ctx.tier == "quick" else 3000
     done = 0
+    check_defaults_corpus(ctx)
     while done < n and ctx.time_left() > 10:
         models = gen_models(ctx, min(100, n - done), max_demes=6 if ctx.tier == "quick" else 9)
         done += len(models)
@@ -91,8 +150,13 @@ def run(ctx):
                 r2 = canon(g2.asdict())
             except Exception as e:  # noqa: BLE001
                 r2 = ("err", type(e).__name__)
+            try:
+                g3 = demes.Graph.fromdict(as_other_mappings(sd))
+                r3 = canon(g3.asdict())
+            except Exception as e:  # noqa: BLE001
+                r3 = ("err", type(e).__name__)
             ctx.count({"shared": show(canon_doc(d))}, True, tags=["sharing"])
-            for name, r in (("shared Python objects", r1), ("YAML anchors/aliases", r2)):
+            for name, r in (("shared Python objects", r1), ("YAML anchors/aliases", r2), ("shared Python objects held in OrderedDict mappings", r3)):
                 if isinstance(r, tuple) or not canon_eq(r, exp):
                     ctx.violation(f"{name}: document with sub-objects shared by reference resolves differently",
                                   {"document": show(canon_doc(d)), "sharing": name},
